@@ -179,6 +179,17 @@ Theorem no_trap_sbs_filled_node : forall bf height bias maxv path,
   sbs_filled_node bf height bias maxv path <> None.
 Proof. exact C20.Proofs.no_trap_sbs_filled_node. Qed.
 
+(* ---- Coverage format 2 `get`, Device `iter`, Svg `glyph_data` (the three read-fonts sites fixed in 9432562) ---- *)
+Theorem no_trap_cov2_get : forall sg eg sc gid, u16 sg -> u16 gid -> cov2_get sg eg sc gid <> None.
+Proof. exact C20.Proofs.no_trap_cov2_get. Qed.
+Theorem no_trap_device_count : forall ss es, u16 es -> device_count ss es <> None.
+Proof. exact C20.Proofs.no_trap_device_count. Qed.
+Theorem device_count_value : forall ss es, u16 ss -> u16 es ->
+  device_count ss es = Some (if ss <=? es then es - ss + 1 else 0).
+Proof. exact C20.Proofs.device_count_value. Qed.
+Theorem no_trap_svg_doc_slice : forall off len n, svg_doc_slice off len n <> None.
+Proof. exact C20.Proofs.no_trap_svg_doc_slice. Qed.
+
 Print Assumptions no_trap_floor.
 Print Assumptions no_trap_round.
 Print Assumptions no_trap_ceil.
@@ -242,3 +253,7 @@ Print Assumptions no_trap_hmtx_ix.
 Print Assumptions no_trap_sbs_node_end.
 Print Assumptions no_trap_sbs_leaf_value.
 Print Assumptions no_trap_sbs_filled_node.
+Print Assumptions no_trap_cov2_get.
+Print Assumptions no_trap_device_count.
+Print Assumptions device_count_value.
+Print Assumptions no_trap_svg_doc_slice.
